@@ -283,7 +283,8 @@ def off_cases(draw):
     d = draw(st.dictionaries(st.sampled_from(["x", "y"]), gen.json_values(2), max_size=2))
     d["__jsonclass__"] = desc
     payload = wrap_payload(d, draw(st.integers(0, 4)), draw(st.sampled_from(["list", "dict"])))
-    return {"payload": payload, "side": draw(st.sampled_from(["client", "server", "load"])), "version": draw(st.sampled_from([1.0, 2.0])),
+    return {"payload": payload, "side": draw(st.sampled_from(["client", "server", "load", "proxy-late-off"])), "version": draw(st.sampled_from([1.0, 2.0])),
+            "forced_version": draw(st.sampled_from([None, 1.0, 2.0])),
             "canary": isinstance(desc, list) and bool(desc) and desc[0] in CANARIES,
             "spell": draw(st.one_of(st.just(0), st.integers(1, 2 ** 13 - 1)))}
 
@@ -295,7 +296,26 @@ def oracle_off(case):
 
     cfg = Config(version=case["version"], use_jsonclass=False)
     payload = case["payload"]
-    if case["side"] == "client":
+    if case["side"] == "proxy-late-off":
+        # the documented way: build the proxy, then set config.use_jsonclass = False
+        from vlib.loopback import CannedTransport
+        late = Config(version=case["version"])
+        tr = CannedTransport(late)
+        proxy = J.ServerProxy("http://loopback/", transport=tr, config=late, version=case.get("forced_version"))
+        late.use_jsonclass = False
+        text = respell(json.dumps({"jsonrpc": "2.0", "id": 1, "result": payload}), case.get("spell", 0))
+        tr.reply = text
+        r, evs, imps, made = observe(lambda: proxy.some_method(1))
+        if r[0] != "ret" or not gen.strict_eq(r[1], json.loads(text)["result"]):
+            fail("C08/off-not-plain-json", "a proxy whose Config was switched off returned %r for %r" % (r[1], text[:200]))
+        tr.reply = "[%s]" % text
+        mc = J.MultiCall(proxy, late)
+        mc.a()
+        r2, evs2, imps2, made2 = observe(lambda: list(mc()))
+        evs, imps, made = evs + evs2, imps + imps2, made + made2
+        if r2[0] != "ret" or not gen.strict_eq(r2[1], [json.loads(text)["result"]]):
+            fail("C08/off-not-plain-json", "a MultiCall on a switched-off Config returned %r" % (r2[1],))
+    elif case["side"] == "client":
         text = respell(json.dumps({"jsonrpc": "2.0", "id": 1, "result": payload}), case.get("spell", 0))
         r, evs, imps, made = observe(lambda: J.loads(text, cfg))
         if r[0] != "ret" or not gen.strict_eq(r[1], json.loads(text)):
